@@ -62,7 +62,7 @@ PROPS["C14"] = {
     "level": "fault_enumeration",
     "quick_runs": 240, "quick_budget_s": 150, "thorough_budget_s": 600,
     "rule": "one run = one sampled world (store, provider personality incl. the Keycloak flavour with JWT access tokens and 11 wrongly typed role-claim kinds, PKCE, refresh-token rotation, signing-key rotation) + one flow "
-            "{login, login with profile lookup, bearer request, refresh, refresh with profile lookup, plain-OAuth2 login, plain re-validation, login through the Google provider} (profile flows: the "
+            "{login, login with profile lookup, bearer request, refresh, refresh with profile lookup, plain-OAuth2 login, plain re-validation, login / refresh through the Google provider, back-channel logout, login through the Azure AD provider with a Graph-style profile document (mail / otherMails / userPrincipalName, +7 wrongly typed documents)} (profile flows: the "
             "ID token lacks a drawn non-empty subset of email / email_verified / groups / preferred_username); the flow's IdP-call sequence is "
             "recorded fault-free, then re-executed once for EVERY position x EVERY applicable response kind (11 transport kinds, 64 Byzantine token "
             "responses incl. every subset of its five members omitted, 3 JWKS contents, 7 profile contents), each persistent and transient, each with a fresh browser, followed by a follow-up request and a final honest flow; "
